@@ -6,7 +6,8 @@ BOUNDS = {
 }
 ASSUMPTIONS = [
     'C18: oracle = the definition of C11 7.22.6.2 (quot = x / y truncated toward zero, rem = x % y, quot * y + rem == x); for the 64-bit overloads the oracle is the '
-    "driver's own x / y and x % y (separate translation unit), the multiplicative form of the definition is asserted for div(int,int) only (64x64-bit products are out of reach of the SAT back ends)",
+    "driver's own x / y and x % y (separate translation unit); the multiplicative form quot * y + rem == x is not asserted (two 64/128-bit dividers or multipliers are out of reach of the SAT back ends: "
+    "no verdict in 300 s); the div queries are decided by cvc5 on the verification condition exported by CBMC (the end witness by the SAT back end), labs/llabs by the SAT back end",
     'C18: y == 0 and (x == MIN, y == -1) / n == MIN are undefined in C and excluded',
 ]
 
@@ -15,5 +16,5 @@ def queries(tier, prop='C18'):
     ub = prop == 'C02'
     out = []
     for e in ['div', 'div_l', 'div_ll', 'ldiv', 'lldiv', 'imaxdiv', 'labs', 'llabs']:
-        out.append(dict(entry='q_' + e, cfg={}, unwind=4, budget=300 if tier == 'quick' else 900, solver=['kissat', 'cadical'], ub=ub, nofunc=ub))
+        out.append(dict(entry='q_' + e, cfg={}, unwind=4, budget=120 if tier == 'quick' else 600, solver=(['cvc5'] if e not in ('labs', 'llabs') else ['cadical']), ub=ub, nofunc=ub))
     return out
